@@ -260,7 +260,8 @@ Fixpoint proc_batch (a : app) (b : list chunk) : app * list event * Z * bool :=
 (* ------------------------------------------------------------------ handle_data *)
 (* r_used = used_rwnd (usize): bytes of DATA chunk values charged to the receive window while they
    wait in received_queue *)
-Record rstate : Set := mkR { r_conn : SctpState; r_cum : Z; r_rq : list chunk; r_app : app; r_used : Z }.
+(* r_prsn = peer_reconfig_request_sn (u32::MAX until the first RE-CONFIG request) *)
+Record rstate : Set := mkR { r_conn : SctpState; r_cum : Z; r_rq : list chunk; r_app : app; r_used : Z; r_prsn : Z }.
 
 (* `chunk.len()` of a buffered DATA chunk value: the 12 fixed bytes + user data *)
 Definition chunk_len (c : chunk) : Z := data_min_value_len + Z.of_nat (length (p_data (c_p c))).
@@ -297,7 +298,7 @@ Definition recv_data (st : rstate) (c : chunk) : rstate * list event :=
   if data_is_dup diff then (st, [])
   else if (diff =? data_fast_diff) && is_nil (r_rq st) then
     let '(a1, evs, ok) := proc (r_app st) (c_p c) in
-    (mkR (r_conn st) (if ok then c_tsn c else r_cum st) (r_rq st) a1 (r_used st), evs)
+    (mkR (r_conn st) (if ok then c_tsn c else r_cum st) (r_rq st) a1 (r_used st) (r_prsn st), evs)
   else
     (* `if !contains_key { used_rwnd += chunk.len(); insert }`; every chunk processed by the loop is
        credited back (`used_rwnd -= chunk_len` after process_data_payload returned Ok) *)
@@ -306,7 +307,7 @@ Definition recv_data (st : rstate) (c : chunk) : rstate * list event :=
     let used1 := if present then r_used st else cast_usize (r_used st + chunk_len c) in
     let '(batch, rq2) := take_run (length rq1) (w32 (r_cum st + 1)) rq1 in
     let '(a1, evs, n, _) := proc_batch (r_app st) batch in
-    (mkR (r_conn st) (w32 (r_cum st + n)) rq2 a1 (cast_usize (used1 - sum_len (firstn (Z.to_nat n) batch))), evs).
+    (mkR (r_conn st) (w32 (r_cum st + n)) rq2 a1 (cast_usize (used1 - sum_len (firstn (Z.to_nat n) batch))) (r_prsn st), evs).
 
 (* ------------------------------------------------------------------ setup, forward-TSN, close *)
 (* the loop over data_channels in handle_cookie_echo / handle_cookie_ack *)
@@ -341,7 +342,7 @@ Fixpoint fwd_streams (a : app) (pairs : list (Z * Z)) : app * list event :=
 Definition fwd_tsn (st : rstate) (newcum : Z) (pairs : list (Z * Z)) : rstate * list event :=
   if newcum >? r_cum st then
     let '(a1, evs) := fwd_streams (r_app st) pairs in
-    (mkR (r_conn st) newcum (filter (fun c => c_tsn c >? newcum) (r_rq st)) a1 (r_used st), evs)
+    (mkR (r_conn st) newcum (filter (fun c => c_tsn c >? newcum) (r_rq st)) a1 (r_used st) (r_prsn st), evs)
   else (st, []).
 
 Definition close_channel (a : app) (sid : Z) : app * list event :=
@@ -363,6 +364,78 @@ Fixpoint teardown (cs : list chan) : list chan * list event :=
     else (with_state DataChannelState_Closed c :: r', Ev (ch_id c) EClose :: evs)
   end.
 
+(* ------------------------------------------------------------------ RE-CONFIG (RFC 6525) *)
+(* handle_reconfig: walk the parameters of the chunk value. Each parameter: type u16, length u16
+   (header included), value of length-4 bytes, then padding to a multiple of 4 which is skipped
+   only if that many bytes remain. The walk stops at a short header, a length below 4 or a value
+   longer than what remains. Result: (type, value) per parameter, WITHOUT the padding. *)
+Fixpoint reconfig_params (fuel : nat) (buf : list Z) : list (Z * list Z) :=
+  match fuel with
+  | O => []
+  | S f =>
+    match buf with
+    | t1 :: t0 :: l1 :: l0 :: rest =>
+      let ty := of_be16 t1 t0 in
+      let len := of_be16 l1 l0 in
+      if (len <? RECONFIG_PARAM_HEADER_LEN) || (Z.of_nat (length rest) <? len - RECONFIG_PARAM_HEADER_LEN) then []
+      else
+        let vlen := Z.to_nat (len - RECONFIG_PARAM_HEADER_LEN) in
+        let rest1 := skipn vlen rest in
+        let pad := Z.to_nat ((4 - len mod 4) mod 4) in
+        let rest2 := if (pad <=? length rest1)%nat then skipn pad rest1 else rest1 in
+        (ty, firstn vlen rest) :: reconfig_params f rest2
+    | _ => []
+    end
+  end.
+
+(* while buf.remaining() >= 2 { streams.push(buf.get_u16()) } *)
+Fixpoint u16s (l : list Z) : list Z :=
+  match l with
+  | a :: b :: r => of_be16 a b :: u16s r
+  | _ => []
+  end.
+
+(* request sequence number and stream list of an Outgoing SSN Reset Request parameter value (three
+   u32 fields, then the stream ids); None when the value is shorter than the fixed fields *)
+Definition ssn_reset_streams (v : list Z) : option (Z * list Z) :=
+  if Z.of_nat (length v) <? SSN_RESET_FIXED_LEN then None
+  else match v with
+       | a :: b :: c :: d :: r => Some (of_be32 a b c d, u16s (skipn (Z.to_nat SSN_RESET_FIXED_LEN - 4) r))
+       | _ => None
+       end.
+
+(* handle_reconfig_outgoing_ssn_reset. (It also resets the send-side next_ssn of the listed local
+   channels; the send side is specified separately by `pchunks` and is not part of this state.) *)
+Definition ssn_reset (st : rstate) (v : list Z) : rstate * list event :=
+  match ssn_reset_streams v with
+  | None => (st, [])
+  | Some (rsn, ids) =>
+    if (rsn <=? r_prsn st) && negb (r_prsn st =? 4294967295) then (st, [TxCtl CT_RECONFIG])
+    else
+      let streams' := match ids with
+                      | [] => []
+                      | _ => fold_left (fun m sid => sm_remove sid m) ids (a_streams (r_app st))
+                      end in
+      (mkR (r_conn st) (r_cum st) (r_rq st) (mkApp (a_chans (r_app st)) streams') (r_used st) rsn, [TxCtl CT_RECONFIG])
+  end.
+
+Fixpoint reconfig_apply (st : rstate) (ps : list (Z * list Z)) : rstate * list event :=
+  match ps with
+  | [] => (st, [])
+  | (ty, v) :: r =>
+    let '(st1, e1) := if ty =? RECONFIG_PARAM_OUTGOING_SSN_RESET then ssn_reset st v else (st, []) in
+    let '(st2, e2) := reconfig_apply st1 r in (st2, e1 ++ e2)
+  end.
+
+Definition handle_reconfig (st : rstate) (value : list Z) : rstate * list event :=
+  reconfig_apply st (reconfig_params (length value) value).
+
+(* send_reconfig_ssn_reset / close_data_channel: the RE-CONFIG chunk value for a stream list *)
+Definition encode_ssn_reset (rsn rsp tsn : Z) (ids : list Z) : list Z :=
+  let plen := 16 + 2 * Z.of_nat (length ids) in
+  be16b RECONFIG_PARAM_OUTGOING_SSN_RESET ++ be16b plen ++ be32b rsn ++ be32b rsp ++ be32b tsn
+  ++ flat_map be16b ids ++ repeat 0 (Z.to_nat ((4 - plen mod 4) mod 4)).
+
 Inductive input : Set :=
 | IData (c : chunk)
 | IInit (itsn : Z)
@@ -371,13 +444,14 @@ Inductive input : Set :=
 | ICookieAck
 | IFwdTsn (newcum : Z) (pairs : list (Z * Z))
 | IClose (sid : Z)
-| ITeardown.
+| ITeardown
+| IReconfig (value : list Z).
 
 Definition connected (st : rstate) : bool := SctpState_eqb (r_conn st) SctpState_Connected.
 
 Definition establish (st : rstate) (pre : list event) : rstate * list event :=
   let '(cs, evs) := on_established (a_chans (r_app st)) in
-  (mkR SctpState_Connected (r_cum st) (r_rq st) (mkApp cs (a_streams (r_app st))) (r_used st), pre ++ evs).
+  (mkR SctpState_Connected (r_cum st) (r_rq st) (mkApp cs (a_streams (r_app st))) (r_used st) (r_prsn st), pre ++ evs).
 
 Definition step (st : rstate) (i : input) : rstate * list event :=
   if SctpState_eqb (r_conn st) SctpState_Closed then (st, []) else
@@ -385,17 +459,18 @@ Definition step (st : rstate) (i : input) : rstate * list event :=
   | IData c => recv_data st c
   | IInit t =>
     if connected st then (st, [])
-    else (mkR (r_conn st) (w32 (t - 1)) (r_rq st) (r_app st) (r_used st), [TxCtl CT_INIT_ACK])
+    else (mkR (r_conn st) (w32 (t - 1)) (r_rq st) (r_app st) (r_used st) (r_prsn st), [TxCtl CT_INIT_ACK])
   | IInitAck t has_cookie =>
     if connected st then (st, [])
-    else (mkR (r_conn st) (w32 (t - 1)) (r_rq st) (r_app st) (r_used st), if has_cookie then [TxCtl CT_COOKIE_ECHO] else [])
+    else (mkR (r_conn st) (w32 (t - 1)) (r_rq st) (r_app st) (r_used st) (r_prsn st), if has_cookie then [TxCtl CT_COOKIE_ECHO] else [])
   | ICookieEcho valid => if valid then establish st [TxCtl CT_COOKIE_ACK] else (st, [])
   | ICookieAck => establish st []
   | IFwdTsn n pairs => fwd_tsn st n pairs
-  | IClose sid => let '(a, evs) := close_channel (r_app st) sid in (mkR (r_conn st) (r_cum st) (r_rq st) a (r_used st), evs)
+  | IClose sid => let '(a, evs) := close_channel (r_app st) sid in (mkR (r_conn st) (r_cum st) (r_rq st) a (r_used st) (r_prsn st), evs)
   | ITeardown =>
     let '(cs, evs) := teardown (a_chans (r_app st)) in
-    (mkR SctpState_Closed (r_cum st) (r_rq st) (mkApp cs (a_streams (r_app st))) (r_used st), evs)
+    (mkR SctpState_Closed (r_cum st) (r_rq st) (mkApp cs (a_streams (r_app st))) (r_used st) (r_prsn st), evs)
+  | IReconfig v => handle_reconfig st v
   end.
 
 Fixpoint run (st : rstate) (h : list input) : rstate * list event :=
@@ -405,9 +480,9 @@ Fixpoint run (st : rstate) (h : list input) : rstate * list event :=
   end.
 
 (* run_loop sets Connecting before anything is received *)
-Definition init_r (cum : Z) (cs : list chan) : rstate := mkR SctpState_Connecting cum [] (mkApp cs []) 0.
+Definition init_r (cum : Z) (cs : list chan) : rstate := mkR SctpState_Connecting cum [] (mkApp cs []) 0 4294967295.
 (* an established association that expects TSN cum+1 next *)
-Definition est_r (cum : Z) (cs : list chan) : rstate := mkR SctpState_Connected cum [] (mkApp cs []) 0.
+Definition est_r (cum : Z) (cs : list chan) : rstate := mkR SctpState_Connected cum [] (mkApp cs []) 0 4294967295.
 
 (* ------------------------------------------------------------------ observations *)
 Definition log_of (sid : Z) (evs : list event) : list (list Z) :=
